@@ -14,6 +14,20 @@ impl<T> Clone for Vec<T> {
     #[verifier::external_body]
     fn clone(&self) -> (r: Self) ensures r == *self { unimplemented!() }
 }
+/// `impl RangeBounds<u32>` arguments of `Vec::slice`: the range literals `a..b`, `a..`, `..b`, `a..=b`
+pub trait VecRange { spec fn vlo(&self) -> int; spec fn vhi(&self, len: int) -> int; }
+impl VecRange for core::ops::Range<u32> {
+    open spec fn vlo(&self) -> int { self.start as int }
+    open spec fn vhi(&self, len: int) -> int { self.end as int }
+}
+impl VecRange for core::ops::RangeFrom<u32> {
+    open spec fn vlo(&self) -> int { self.start as int }
+    open spec fn vhi(&self, len: int) -> int { len }
+}
+impl VecRange for core::ops::RangeTo<u32> {
+    open spec fn vlo(&self) -> int { 0 }
+    open spec fn vhi(&self, len: int) -> int { self.end as int }
+}
 /// the SDK takes `impl Borrow<T>` where it compares values: both `x` and `&x` are accepted
 pub trait VxBorrow<T> { spec fn bv(&self) -> T; }
 impl<T> VxBorrow<T> for T { open spec fn bv(&self) -> T { *self } }
@@ -112,6 +126,12 @@ impl<T> Vec<T> {
     pub fn concat(&self, other: &Vec<T>) -> (r: Vec<T>) ensures r@ == self@ + other@ { unimplemented!() }
     #[verifier::external_body]
     pub fn extend_from_array<const N: usize>(&mut self, a: [T; N]) ensures final(self)@ == old(self)@ + a@ { unimplemented!() }
+    /// `Vec::slice(range)`: the host traps unless start <= end <= len
+    #[verifier::external_body]
+    pub fn slice<R: VecRange>(&self, r: R) -> (res: Vec<T>)
+        ensures 0 <= r.vlo() <= r.vhi(self@.len() as int) <= self@.len(),
+            res@ == self@.subrange(r.vlo(), r.vhi(self@.len() as int)),
+    { unimplemented!() }
     #[verifier::external_body]
     pub fn append(&mut self, other: &Vec<T>) ensures final(self)@ == old(self)@ + other@ { unimplemented!() }
     /// host comparison of values is structural
